@@ -3,7 +3,8 @@
 // program, in a persistent child process.
 //
 // ops:  simplify <expr>  =>  <returned tree> ;; <argument tree afterwards>   | panic | crash | hang
-//       evalpair <expr>  =>  <outcome of e> ;; <outcome of Simplify(e)>
+//
+//	evalpair <expr>  =>  <outcome of e> ;; <outcome of Simplify(e)>
 package main
 
 import (
@@ -57,6 +58,13 @@ func corpus() []*lang.Node {
 		C(S("typed"), St("bogus"), C(S("keyed"), St("a"))),
 		C(S("keyed"), St("a"), St("b")), C(S("tagged"), St("a")), C(S("and"), C(S("keyed"), St("a"))),
 		L([]string{"a"}, C(S("keyed"), S("a"), St("k"))),
+		// variadic functions: a call without arguments is complete, not the function (seeded change C22-2);
+		// the η-rule does not apply to them
+		C(S("collection")), C(S("pair"), C(S("collection")), I(3)), C(S("first"), C(S("pair"), C(S("collection")), I(1))),
+		C(S("collection"), C(S("pair"), I(1), I(2))), C(S("call")), C(S("call"), S("zero")),
+		C(S("call"), S("add"), I(1), I(2)), C(C(S("call")), S("add"), I(1), I(2)),
+		L([]string{"a"}, C(S("collection"), S("a"))), L([]string{"f"}, C(S("call"), S("f"))),
+		C(L([]string{"x"}, C(S("pair"), S("x"), C(S("collection")))), I(1)),
 	}
 }
 
@@ -200,6 +208,14 @@ func noargTemplate(r *hx.Rand) (*lang.Node, map[string]bool) {
 }
 
 func generate(r *hx.Rand) (*lang.Node, map[string]bool, string) {
+	if r.Chance(1, 12) { // (f) for every function of the table, variadic or not, at the root / as an argument
+		fns := lang.AllBuiltins
+		if r.Chance(1, 3) {
+			fns = lang.VariadicBuiltins
+		}
+		n, feat := lang.NoargProgram(r, fns)
+		return n, feat, ""
+	}
 	switch r.Intn(10) {
 	case 0, 1, 2:
 		n, feat := etaTemplate(r)
@@ -208,7 +224,7 @@ func generate(r *hx.Rand) (*lang.Node, map[string]bool, string) {
 		n, feat := noargTemplate(r)
 		return n, feat, ""
 	}
-	g := &lang.Gen{R: r, Budget: 4 + r.Intn(22), Queries: true}
+	g := &lang.Gen{R: r, Budget: 4 + r.Intn(22), Queries: true, Variadic: r.Chance(1, 3)}
 	p := g.Program()
 	mut := ""
 	if r.Chance(1, 6) {
@@ -294,8 +310,8 @@ func main() {
 	}
 	defer worker.Close()
 	hx.Main(hx.Family{
-		Name: "c22",
-		Rule: "1 in 10: calls without arguments ((f), ((f)), ({-> e})) inside lambdas that may shadow f; 3 in 10: a lambda over one call of a global function with its parameters used in order / reordered / repeated / omitted / next to literals, lambdas or calls, bare or applied or nested under a shadowing lambda; otherwise programs from the C21 generator extended with strings, query literals and the query builders (and or typed keyed tagged), 1 in 6 with an ill-typing edit. non-trivial = Simplify returned a tree different from its argument; distinct = by hash of the program text",
+		Name:     "c22",
+		Rule:     "1 in 12: a call without arguments (f) / ((f)) of any function of the table, variadic (the real collection, call) or not, at the root, as an argument, in a lambda body, passed to a lambda or called again; of the rest 1 in 10: calls without arguments ((f), ((f)), ({-> e})) inside lambdas that may shadow f; 3 in 10: a lambda over one call of a global function with its parameters used in order / reordered / repeated / omitted / next to literals, lambdas or calls, bare or applied or nested under a shadowing lambda; otherwise programs from the C21 generator extended with strings, query literals and the query builders (and or typed keyed tagged) and, 1 in 3, with collection values ((collection p…) with 0..3 pairs) and the variadic call f args…, 1 in 6 with an ill-typing edit. non-trivial = Simplify returned a tree different from its argument; distinct = by hash of the program text",
 		Quick:    4000,
 		Thorough: 60000,
 		Corpus: func(c *hx.Ctx) {
